@@ -749,6 +749,38 @@ static CPU_FEATURES: OnceLock<CpuFeatures> = OnceLock::new();
 /// This is the main API for accessing CPU features with comprehensive
 /// detection capabilities following the SIMD implementation plan Phase 1.1
 pub fn get_cpu_features() -> &'static CpuFeatures {
+    // Verification hook: ZIPORA_VERIF_CPU_MASK=avx512,avx2,bmi2,bmi1,popcnt,sse42,sse41,lzcnt clears the
+    // named tiers from the detected feature set (forced lower-tier runs, one process per tier).
+    #[cfg(zipora_verif)]
+    if CPU_FEATURES.get().is_none() {
+        if let Ok(mask) = std::env::var("ZIPORA_VERIF_CPU_MASK") {
+            let mut f = RuntimeCpuFeatures::new().detect_features();
+            for t in mask.split(',') {
+                match t.trim() {
+                    "avx512" => {
+                        f.has_avx512f = false;
+                        f.has_avx512vl = false;
+                        f.has_avx512bw = false;
+                        f.has_avx512vpopcntdq = false;
+                    }
+                    "avx2" => f.has_avx2 = false,
+                    "avx" => f.has_avx = false,
+                    "bmi2" => f.has_bmi2 = false,
+                    "bmi1" => f.has_bmi1 = false,
+                    "popcnt" => f.has_popcnt = false,
+                    "lzcnt" => {
+                        f.has_lzcnt = false;
+                        f.has_tzcnt = false;
+                    }
+                    "sse42" => f.has_sse42 = false,
+                    "sse41" => f.has_sse41 = false,
+                    _ => {}
+                }
+            }
+            f.detect_and_configure_simd();
+            let _ = CPU_FEATURES.set(f);
+        }
+    }
     CPU_FEATURES.get_or_init(|| {
         RuntimeCpuFeatures::new().detect_features()
     })
